@@ -129,10 +129,16 @@ def snapshot(root):
         for n in dirs:
             p = os.path.join(dirpath, n)
             rel = os.path.relpath(p, root)
+            if os.path.islink(p):
+                out[rel] = ("link", os.readlink(p), 0)
+                continue
             out[rel] = ("dir", None, os.stat(p).st_mode & 0o777)
         for n in files:
             p = os.path.join(dirpath, n)
             rel = os.path.relpath(p, root)
+            if os.path.islink(p):
+                out[rel] = ("link", os.readlink(p), 0)
+                continue
             try:
                 with open(p, "rb") as f:
                     data = f.read()
